@@ -4,6 +4,7 @@ CONSTANTS
   Emit = FALSE
   Slots = {"s1", "s2"}
   MaxSteps = 0
+  UseKinds = {}
   Machine = "cycle"
 INVARIANTS CleanAfterGet
 
